@@ -89,6 +89,7 @@ int main( int argc, char * argv[] )
 
   // Accepts file from stdin if nothing specified
     FILE * fin = NULL;
+    bool parseFailed = false;
 
     SMTConfig c = parseCMDLineArgs(argc,argv);
     Interpret interpreter(c);
@@ -119,7 +120,7 @@ int main( int argc, char * argv[] )
                 opensmt_error( "SMTLIB 1.2 format is not supported in this version, sorry" );
             }
             else if ( extension != NULL && strcmp( extension, ".smt2" ) == 0 ) {
-                interpreter.interpFile(fin);
+                if (interpreter.interpFile(fin) != 0) { parseFailed = true; }
             }
             else
                 opensmt_error2( filename, " extension not recognized. Please use one in { smt2, cnf } or stdin (smtlib2 is assumed)" );
@@ -127,7 +128,7 @@ int main( int argc, char * argv[] )
         fclose( fin );
     }
 
-    int const exit_status = interpreter.okStatus() ? 0 : 1;
+    int const exit_status = (interpreter.okStatus() and not parseFailed) ? 0 : 1;
 
     return exit_status;
 }
